@@ -93,6 +93,14 @@ def runOp (st : DState) (op : String) (args : List String) : DState × String :=
       match p.enc with
       | .ok b => "ok " ++ hx b ++ " | " ++ (match PHY.dec b with | .ok f => fmtFrame f | .err => "ERR" | .panic => "PANIC")
       | .err => "ERR" | .panic => "PANIC")
+  | "jart" => (st, withArgs args frame fun p =>
+      match p.payload with
+      | some (.joinAccept ja) =>
+        (match ja.enc with
+         | .ok b => "ok " ++ hx b ++ " | " ++ (match JoinAccept.dec {} b with
+             | .ok q => fmtFrame { p with payload := some (.joinAccept q) } | .err => "ERR" | .panic => "PANIC")
+         | .err => "ERR" | .panic => "PANIC")
+      | _ => badop "join-accept")
   | "phytextenc" => (st, withArgs args frame fun p => fmtOut (fun b => "t" ++ String.ofList (Base64.encode b)) p.enc)
   | "phytextdec" => (st, withArgs args next fun t =>
       match Base64.decode (sdrop t 1).toList with
